@@ -367,7 +367,10 @@ class Builder:
                 ents.append(net.subscribe(sidv, iid, maj, tag[1], ttl, counter=tag[2], o1=o1, o2=o2))
             if a.get("offer_entry"):
                 ents = [net.offer(0x7777, 1, 1, 0, 3)]
-            a["data"] = net.sd_bytes(ents, sid, reboot=flag)
+            # a message without Subscribe entries (pure reboot evidence, or an Offer) is sent with the unicast flag CLEAR every other
+            # time: its entries would be ignored anyway, but it is a received SD message - the reboot it reveals is applied
+            flag_clear = (not a["entries"]) and len(self.script) % 2 == 0
+            a["data"] = net.sd_bytes(ents, sid, reboot=flag, unicast=not flag_clear)
             for kk in [kk for kk, d in self.deadlines.items() if d != math.inf and d < t - RES]:
                 del self.deadlines[kk]
             if a.get("reboot"):
